@@ -433,18 +433,7 @@ theorem c16_created_policy_limiter (env : Env) (henv : EnvOK env) (known : List 
   refine ⟨ci, hci, ?_⟩
   intro p _ s hs hname
   have hn : namesOK c.schemas = true := (classes_of_accepted env known c h).2.2.2.2.2.1
-  have hne : s.name ≠ [] := by
-    have := namesOK_append_cons [] s [] (by
-      have := hn
-      induction c.schemas with
-      | nil => cases hs
-      | cons a l ih =>
-        simp only [namesOK, Bool.and_eq_true, decide_eq_true_eq] at this
-        simp only [List.mem_cons] at hs
-        rcases hs with rfl | hs
-        · simp [namesOK, this.1.1]
-        · exact ih hs this.2)
-    exact this.1
+  have hne : s.name ≠ [] := namesOK_mem_ne c.schemas hn s hs
   unfold resolveFlowControl
   rw [hname, hfl, alGet_map_entryOf_some c.schemas hn s hs]
   simp [hne]
